@@ -264,13 +264,13 @@ CLAIMS = {
         "",
     ),
     "C25": (
-        "proof",
-        "Per-filter contracts (postconditions taken from the property statement) are discharged for all argument values on the real filter kernels "
-        "(truncate_chars, slice, integer arithmetic filters, default, size, first/last ...) by symbolic execution of their current source; "
-        "filters whose semantics need floats/regex/sorting are checked by a bounded exhaustive contract check and labelled bounded.",
+        "other",
+        "Contracts with postconditions taken from the property statement, discharged for all argument values on the real kernels by symbolic execution of their current source: truncate_chars (unchanged when short, else ends in the ellipsis and bounded), "
+        "plus/minus/times/divided_by/modulo/abs/at_least/at_most/ceil/floor/round on arbitrary (unbounded) integers against exact integer arithmetic incl. floor division and the zero-divisor error. "
+        "Every other clause (size, case/whitespace, split/join, array filters, slice/first/last, truncatewords, decimal arithmetic, default) is decided by a bounded exhaustive contract check against references written from the statement over typed value pools, labelled bounded.",
         "contract-based deductive verification (ast->SMT VCs on real source, z3/cvc5) + bounded contract check",
         "DESIGN.md section 4 C25",
-        "",
+        "Known finding: split/join round trip for the whitespace separator and for a value equal to the separator (Ruby-compatible by design).",
     ),
 }
 
